@@ -86,7 +86,15 @@ let search (fp : 'st -> int) (show : 'st -> string) (compact : 'st -> 'st) (try_
   Array.stable_sort (fun i j -> compare hi.(i) hi.(j)) byhi;
   (* actions that commute with every action of the other threads: observations and the harness's marks (call, return,
      begin and end of a work item), which move only their thread's program point / append to the run history *)
-  let indep = Array.init n (fun i -> acts.(i).r_obs || (int_of_z acts.(i).r_code = 0 && (let k = int_of_z acts.(i).r_ev.ek in k >= 100 && k <= 103))) in
+  let indep = Array.init n (fun i -> acts.(i).r_obs || (int_of_z acts.(i).r_code = 0 && (let e = acts.(i).r_ev in let k = int_of_z e.ek in
+    (k >= 100 && k <= 103) || (k = 3 && e.ea = e.eb)))) in    (* an exchange that writes back what it read: an observation *)
+  (* the shared word an action reads or writes (0: none / not known) *)
+  let word_of = Array.init n (fun i ->
+    let a = acts.(i) in
+    match int_of_z a.r_code with
+    | 0 -> let e = a.r_ev in let k = int_of_z e.ek in
+      if k >= 100 then 0 else (match int_of_z e.eobj with 1 -> 1000 + int_of_z e.eoff | 2 -> 2000 | 3 -> 3000 | _ -> 0)
+    | 1 -> 1000 + 48 | 3 -> 2000 | _ -> 0) in
   let zob = Array.init n (fun i -> Hashtbl.hash (i * 2654435761 + 12345) lxor (Hashtbl.hash (i + 77) lsl 30)) in
   (* recorded pool threads: (tid, key of the first event), in order of first event *)
   let wk = Array.of_list (List.sort (fun (_, a) (_, b) -> compare a b) workers) in
@@ -170,6 +178,30 @@ let search (fp : 'st -> int) (show : 'st -> string) (compact : 'st -> 'st) (try_
             | None -> false)
          | None -> go more) in
     !njump < 20000 && go blocked in
+  (* conflict-directed return: the blocked action b waits for a value of word w; the most recent choice among actions on w
+     that has another action on w as an alternative is the place to choose differently (the choices in between concern other
+     words) *)
+  let ncbj = ref 0 in
+  let cbj b =
+    let w = word_of.(b) in
+    if w = 0 || !ncbj > 50000 then false else begin
+      let rec walk st depth scanned =
+        match st with
+        | [] -> None
+        | (_, _, _, i, _, alts) :: rest ->
+          if scanned > 300 then None
+          else if word_of.(i) = w && List.exists (fun j -> word_of.(j) = w) alts then Some depth
+          else walk rest (depth - 1) (scanned + 1) in
+      match walk !stack (!ndone - 1) 0 with
+      | Some depth ->
+        while !ndone > depth + 1 do undo_top () done;
+        (match !stack with
+         | (s, h, sh, i, k, alts) :: rest ->
+           let (same, other) = List.partition (fun j -> word_of.(j) = w) alts in
+           stack := (s, h, sh, i, k, same @ other) :: rest; incr ncbj; backtrack (); true
+         | [] -> false)
+      | None -> false
+    end in
   advance ();
   while !result = None do
     if !ndone = n then result := Some true
@@ -204,16 +236,34 @@ let search (fp : 'st -> int) (show : 'st -> string) (compact : 'st -> 'st) (try_
                match List.find_opt (fun (j, (aj, _, sj)) -> j <> i1 && hi.(j) - hi.(i1) <= 48 && try_ s1 aj = None && try_ sj (fst (instance i1)) <> None) enabled with
                | Some c -> refine (fuel - 1) c
                | None -> (i1, r1) in
+             (* the action that has to come next (smallest stamp) is blocked: an enabled write after which it is enabled goes
+                first (it is often one whose stamp lags behind its operation) *)
+             let enabled =
+               (match cands with
+                | b :: _ when hi.(b) = mh && not (List.mem_assoc b enabled) ->
+                  let ab = fst (instance b) in
+                  let (unb, rest) = List.partition (fun (_, (_, _, sj)) -> try_ sj ab <> None) enabled in unb @ rest
+                | _ -> enabled) in
+             let (i1, r1) = List.hd enabled in
              let (ib, ((_, kb, _) as rb)) = refine (List.length enabled) (i1, r1) in
-             push ib kb (List.filter (fun j -> j <> ib) (List.map fst enabled)); apply ib rb
+             (* the best enabled write lies far ahead while nearer actions are blocked: first try to repair a nearer one (its
+                stamp may lag behind its operation); an always-enabled blind store taken too early derails the search *)
+             let near = (match cands with b :: _ when hi.(b) = mh && not (List.mem_assoc b enabled) -> [b] | _ -> []) in
+             if hi.(ib) > mh + 256 && near <> [] && backjump near then ()
+             else begin push ib kb (List.filter (fun j -> j <> ib) (List.map fst enabled)); apply ib rb end
            | [] ->
-             if !nback < 5 && Sys.getenv_opt "RQ_DEBUG" <> None then begin
+             if !nback < 2 && Sys.getenv_opt "RQ_DEBUG" <> None then begin
                Printf.eprintf "dead end %d: done %d minhi %d state %s\n" !nback !ndone mh (show !state);
-               List.iter (fun i -> Printf.eprintf "   blocked: pos %d tid %d id %d code %d key %d lo %d hi %d\n" i tid_of.(i) (int_of_z acts.(i).r_id)
-                             (int_of_z acts.(i).r_code) keys.(i) lo.(i) hi.(i)) cands
+               let desc i = let e = acts.(i).r_ev in Printf.sprintf "pos %d tid %d id %d code %d key %d lo %d hi %d | k%d obj%d off %s a=%s b=%s ok=%d" i tid_of.(i)
+                   (int_of_z acts.(i).r_id) (int_of_z acts.(i).r_code) keys.(i) lo.(i) hi.(i) (int_of_z e.ek) (int_of_z e.eobj) (hex_of_z e.eoff) (hex_of_z e.ea) (hex_of_z e.eb) (int_of_z e.eok) in
+               List.iter (fun i -> Printf.eprintf "   blocked: %s\n" (desc i)) cands;
+               List.iteri (fun k (i, _) -> if k < 14 then Printf.eprintf "   last-%d: %s\n" k (desc i)) !order;
+               flush stderr
              end;
              incr nback;
-             if not (backjump cands) then backtrack ())
+             (match cands with
+              | b :: _ when hi.(b) = mh -> if not (backjump [b]) then (if not (cbj b) then backtrack ())
+              | _ -> backtrack ()))
       end
     end
   done;
